@@ -19,14 +19,15 @@ LEVEL_TEXT = (
     "arithmetic/logical >>) then the folder's evaluation returns exactly v; every constant the folder creates lies in its type's range (also for "
     "undefined operands); integer casts fold to the wrapped value; the same for arbitrarily nested constant expressions (induction over the "
     "tree, as eval_const recurses); the chain rewrites (y+c1)+c2 -> y+c3 and (y-c1)-c2 -> y-c3 produce an in-range c3 and the same run-time "
-    "value for every y, and c3 is the only in-range constant with that property. The operator table and the integer type table of the model are "
+    "value for every y, and c3 is the only in-range constant with that property; operations that are undefined for their constant operands "
+    "(x % 0, negative shift count) are left unfolded and the pass raises nothing on any well-formed integer constant tree. The operator table and the integer type table of the model are "
     "re-checked (decide) against a dump of the live ppci objects on every run; the hand model of correct/cast/eval_const/on_block is tied to the "
     "source by a differential run of the real pass."
 )
 LEVEL_NOTE = (
     "trusted: Lean kernel; axioms propext/Classical.choice/Quot.sound; Spec.IRArith (IR run-time arithmetic written from DESIGN S2, not validated "
     "against a native run here); hand model <-> source correspondence is sampled (8-bit operand pairs exhaustive in thorough, boundary+random "
-    "16/32/64-bit), not proved; CPython int semantics of + - * % << >> bit_length as modelled. Not covered: float/ptr casts, '/', '&', '|', '^' "
+    "16/32/64-bit), not proved; CPython int semantics of + - * % << >> abs bit_length as modelled. Not covered: float/ptr casts, '/', '&', '|', '^' "
     "(not in the folder's table, never folded), the replace_by/insert_instruction graph surgery (C02/C03)."
 )
 TECHNIQUE = ("Lean 4 proof (case split over the 8 types, omega on the wrap arithmetic, induction over expression trees) about a hand model, "
@@ -445,6 +446,27 @@ def non_integer_chains(ctx, real):
             ctx.count("chain_non_integer_" + got.split()[1])
             if got not in (want, "ok keep"):      # rewriting is optional here; raising or a wrong constant is not
                 ctx.disagree("chain-non-integer-type", case, got, want + " | ok keep  (if rewritten: the plain sum, as cast() does for ptr/float)")
+    # float -> integer casts of non-finite constants: int(inf)/int(nan) raise in Python; the pass must leave them alone
+    for v in (float("inf"), float("-inf"), float("nan")):
+        for dst in (ir.i8, ir.u32, ir.i64):
+            m = ir.Module("t", debug_db=real.DebugDb())
+            bld = real.irutils.Builder()
+            bld.set_module(m)
+            fn = bld.new_function("f", ir.Binding.GLOBAL, dst)
+            bld.set_function(fn)
+            blk = bld.new_block()
+            fn.entry = blk
+            bld.set_block(blk)
+            k = bld.emit(ir.Cast(bld.emit(ir.Const(v, "c", ir.f64)), "k", dst))
+            ret = bld.emit(ir.Return(k))
+            try:
+                real.cf.run(m)
+                got = "ok keep" if ret.result is k else "ok replaced"
+            except Exception as ex:  # noqa: BLE001
+                got = "err " + type(ex).__name__
+            ctx.count("eval_cast_non_finite")
+            if got != "ok keep":
+                ctx.disagree("cast-non-finite-float", f"({dst}) {v!r}", got, "ok keep")
 
 
 def check(ctx):
